@@ -84,6 +84,8 @@ theorem zipOne_sys (root : P) (hr : GoodPath root) (fs : FS) (mask : Nat) (e : E
     · exact Sys.refl _
     · rename_i fs1 h1
       exact (mkdirAll_sys root _ _ (take_related root _ hp) fs fs1 h1).1
+  · -- the entry cannot be opened
+    exact Sys.refl _
   · -- file
     split
     · exact Sys.refl _
